@@ -239,15 +239,15 @@ def capacity_submodel(tier, seed, wd, acc, run_all, mkjob, notes):
 NEST_CFG = {
     # the action through an alias as a defchordsv2 action (chord a+b), and directly on key a of a deflayer (control)
     "chv2": "(defcfg process-unmapped-keys yes concurrent-tap-hold yes)\n(defsrc a b c d)\n(defalias t %s)\n"
-            "(deflayer l0 a b c d)\n(defchordsv2 (a b) @t 30 all-released ())\n",
+            "(deflayer l0 a b (multi use-defsrc lsft) d)\n(defchordsv2 (a b) @t 30 all-released ())\n",
     "layer": "(defcfg process-unmapped-keys yes concurrent-tap-hold yes)\n(defsrc a b c d)\n(defalias t %s)\n"
-             "(deflayer l0 @t b c d)\n",
+             "(deflayer l0 @t b (multi use-defsrc lsft) d)\n",
 }
 
 
 def nest_family(tier, seed, wd, acc, run_all, mkjob, notes, tlc_out):
     """spec/NestV2.tla (printed in the Contracts TLC run): every action form with sub-actions x every position x
-    {_, use-defsrc}, depth 1 exhaustively and depth 2 (quick: a seeded sample), behind an alias as a defchordsv2 action
+    {_, use-defsrc, rpt-any}, depth 1 exhaustively and depth 2 (quick: a seeded sample), behind an alias as a defchordsv2 action
     and, as the control, directly in a deflayer.  Outcome relation NvOk: rejected by the parser, or every history of the
     stimulation family is processed to completion (a crash is recorded by `acc` like any other: a violation)."""
     import cfggen, random
@@ -267,7 +267,7 @@ def nest_family(tier, seed, wd, acc, run_all, mkjob, notes, tlc_out):
             st = [[x[0], x[1] if x[0] == "t" else code[x[1]]] for x in h["steps"]
                   if not (ctx == "layer" and x[0] != "t" and x[1] == "b")]
             scripts[ctx].append(("nest-%s:%d:%s:%s" % (ctx, h["pre"], h["fin"], "trig" if h["trig"] else "notrig"), st))
-    d1 = [c for c in cases if c["depth"] == 1]
+    d1 = [c for c in cases if c["depth"] <= 1]      # the leaf alone (depth 0) and every single position
     d2 = [c for c in cases if c["depth"] == 2]
     d2.sort(key=lambda c: c["text"] + c["leaf"])
     if tier == "quick":
@@ -290,13 +290,50 @@ def nest_family(tier, seed, wd, acc, run_all, mkjob, notes, tlc_out):
     byid = {j["id"]: j for j in jobs}
     acc.add(res, byid)
     bad = sorted(set(byid[r["j"]]["label"] for r in res if r["r"] not in ("ok", "reject")))
-    out = {"forms_positions": len(d1) // 2, "leaves": 2, "cases_depth1": len(d1), "cases_depth2_enumerated": len([c for c in cases if c["depth"] == 2]),
+    out = {"forms_positions": len(d1) // 3 - 1, "leaves": 3, "cases_depth1": len(d1), "cases_depth2_enumerated": len([c for c in cases if c["depth"] == 2]),
            "cases_depth2_run": len(d2), "histories_per_case": len(hists),
            "chv2": {"texts": len(sel), "accepted": n_acc["chv2"], "rejected": len(sel) - n_acc["chv2"]},
            "layer_control": {"texts": len(sel), "accepted": n_acc["layer"], "rejected": len(sel) - n_acc["layer"]},
            "executions": len(res), "cases_violating_NvOk": bad[:20], "n_cases_violating_NvOk": len(bad), "wall_s": round(time.time() - t0, 1)}
     log("[c02] nest family: %d cases; chv2 accepted %d, control accepted %d, %d executions, violating %d (%.1fs)" %
         (len(sel), n_acc["chv2"], n_acc["layer"], len(res), len(bad), time.time() - t0))
+    return out
+
+
+def reload_family(tier, seed, wd, acc, run_all, mkjob, notes, tlc_out):
+    """spec/ReloadIdx.tla (printed in the Contracts TLC run): 1-3 configuration files x two reload-request actions
+    (lrld, lrld-next, lrld-prev, (lrld-num N), N in 1 2 3 4 65535) on keys a and b x 7 histories that carry a request up
+    to the deferred reload.  Run on the real code one processing-loop iteration per tick (crash worker, mode "loop") with
+    the files on disk, because tick_ms alone never performs the reload."""
+    import cfggen
+    t0 = time.time()
+    cases, hists = [], []
+    for tag, dest in (("RELOADCASE", cases), ("RELOADHIST", hists)):
+        f = os.path.join(wd, "reload.%s.ndjson" % tag.lower())
+        extract_prints(tlc_out, tag, f)
+        dest += [json.loads(x) for x in open(f) if x.strip()]
+    if not cases or not hists:
+        raise ToolError("ReloadIdx.tla printed no cases")
+    code = {k: cfgdesc.code(k) for k in "abc"}
+    scripts = [("reload:" + h["name"], [[x[0], x[1] if x[0] == "t" else code[x[1]]] for x in h["steps"]]) for h in hists]
+    texts = ["(defcfg process-unmapped-keys yes)\n(defsrc a b c)\n(deflayer l0 %s %s c)\n" % (c["a"], c["b"]) for c in cases]
+    accd, ast = cfggen.accepted(texts, wd, "rldacc", chunk=1000)
+    jobs = []
+    for i, (c, t, a) in enumerate(zip(cases, texts, accd)):
+        if a is None:
+            continue
+        # every file has the same content, so the request keys survive the reload
+        jobs.append(mkjob("l:%d" % i, t, scripts, "reload:%d files:%s:%s" % (c["nf"], c["a"], c["b"]),
+                          extra={"files": [t] * c["nf"], "opts": {"mode": "loop"}}))
+    res = run_all(jobs, wd, "rld")
+    byid = {j["id"]: j for j in jobs}
+    acc.add(res, byid)
+    bad = sorted(set(byid[r["j"]]["label"] for r in res if r["r"] not in ("ok", "reject")))
+    out = {"cases": len(cases), "accepted": len(jobs), "histories_per_case": len(hists), "executions": len(res),
+           "contract_checked_by_tlc": "index valid after every request sequence up to length 3, 1-3 files",
+           "cases_violating_RiOk": bad[:20], "n_cases_violating_RiOk": len(bad), "wall_s": round(time.time() - t0, 1)}
+    log("[c02] reload family: %d cases, %d accepted, %d executions through the processing loop, violating %d (%.1fs)" %
+        (len(cases), len(jobs), len(res), len(bad), time.time() - t0))
     return out
 
 
